@@ -1349,6 +1349,253 @@ def _chained_generators(tree: ast.AST):
     ast.fix_missing_locations(tree)
 
 
+def _lower_walrus(tree: ast.AST):
+    """an assignment expression that is the first thing an `if` test evaluates, unconditionally - `if (x := E):`, `if (x := E) <cmp> ...:`,
+    `if not (x := E):`, the first operand of an `and` / `or` chain - is the statement `x = E` followed by the test reading x.  When it leads the
+    second operand of `A and W` in an `if` without else, it is `if A: x = E; if W: ...`.  (Other positions are left alone.)"""
+    def leading(e):
+        """(holder, field, index) of the NamedExpr evaluated first and unconditionally in e, or None"""
+        if isinstance(e, ast.NamedExpr):
+            return "self"
+        if isinstance(e, ast.Compare) and isinstance(e.left, ast.NamedExpr):
+            return (e, "left", None)
+        if isinstance(e, ast.Compare):
+            r = leading(e.left)
+            return r if r not in (None, "self") else None
+        if isinstance(e, ast.UnaryOp) and isinstance(e.op, ast.Not):
+            r = leading(e.operand)
+            return (e, "operand", None) if r == "self" else r
+        if isinstance(e, ast.BoolOp):
+            r = leading(e.values[0])
+            return (e.values, None, 0) if r == "self" else r
+        if isinstance(e, ast.Call) and isinstance(e.func, ast.Name) and e.args and not any(isinstance(a, ast.Starred) for a in e.args):
+            r = leading(e.args[0])
+            return (e.args, None, 0) if r == "self" else r
+        return None
+
+    def take(holder_of_test, test):
+        """-> (assignment statement, new test) or None"""
+        r = leading(test)
+        if r is None:
+            return None
+        if r == "self":
+            w = test
+            new_test = ast.copy_location(ast.Name(id=w.target.id, ctx=ast.Load()), w)
+        else:
+            h, fld, idx = r
+            w = h[idx] if fld is None else getattr(h, fld)
+            rep = ast.copy_location(ast.Name(id=w.target.id, ctx=ast.Load()), w)
+            if fld is None:
+                h[idx] = rep
+            else:
+                setattr(h, fld, rep)
+            new_test = test
+        if any(isinstance(x, ast.NamedExpr) for x in ast.walk(w.value)):
+            return None
+        return ast.copy_location(ast.Assign(targets=[ast.Name(id=w.target.id, ctx=ast.Store())], value=w.value), holder_of_test), new_test
+    for fn in [n for n in ast.walk(tree) if isinstance(n, (ast.FunctionDef, ast.AsyncFunctionDef))]:
+        changed = True
+        rounds = 0
+        while changed and rounds < 20:
+            changed = False
+            rounds += 1
+            for node in ast.walk(fn):
+                for fld in ("body", "orelse", "finalbody"):
+                    blk = getattr(node, fld, None)
+                    if not isinstance(blk, list) or not blk or not isinstance(blk[0], ast.stmt):
+                        continue
+                    # an `elif` chain is an If nested alone in an orelse: a statement placed before it would run on that branch only, which is right
+                    for k, st in enumerate(blk):
+                        if not isinstance(st, ast.If) or not any(isinstance(x, ast.NamedExpr) for x in ast.walk(st.test)):
+                            continue
+                        got = take(st, st.test)
+                        if got is not None:
+                            asg, st.test = got
+                            blk.insert(k, asg)
+                            changed = True
+                            break
+                        t = st.test
+                        if isinstance(t, ast.BoolOp) and isinstance(t.op, ast.And) and not st.orelse and len(t.values) >= 2 and \
+                                not any(isinstance(x, ast.NamedExpr) for x in ast.walk(t.values[0])) and leading(t.values[1]) is not None:
+                            rest = t.values[1] if len(t.values) == 2 else ast.copy_location(ast.BoolOp(op=ast.And(), values=t.values[1:]), t)
+                            inner = ast.copy_location(ast.If(test=rest, body=st.body, orelse=[]), st)
+                            st.test = t.values[0]
+                            st.body = [inner]
+                            changed = True
+                            break
+                    if changed:
+                        break
+                if changed:
+                    break
+    ast.fix_missing_locations(tree)
+
+
+def _expand_row_stores(tree: ast.AST):
+    """`A[i] = (e0, ..., eK-1)` / `A[i, j] = (...)` / `A[...] = <number>` where A is a local bound once, to `np.empty / np.zeros / np.ones / np.full`
+    with a literal shape tuple whose last dimension is the int literal K, and the index addresses one row (all dimensions but the last, no slice):
+    numpy stores element j of the tuple (or the number) into `A[..., j]`, so the store is written as the K element stores."""
+    import copy as _copy
+    for fn in [n for n in ast.walk(tree) if isinstance(n, (ast.FunctionDef, ast.AsyncFunctionDef))]:
+        shapes: Dict[str, Tuple[int, int]] = {}
+        nstores: Dict[str, int] = {}
+        for n in ast.walk(fn):
+            if isinstance(n, ast.Name) and isinstance(n.ctx, (ast.Store, ast.Del)):
+                nstores[n.id] = nstores.get(n.id, 0) + 1
+        for n in ast.walk(fn):
+            if isinstance(n, ast.Assign) and len(n.targets) == 1 and isinstance(n.targets[0], ast.Name) and isinstance(n.value, ast.Call) and \
+                    dotted(n.value.func) in ("np.empty", "np.zeros", "np.ones", "np.full", "numpy.empty", "numpy.zeros", "numpy.ones", "numpy.full") and n.value.args and \
+                    isinstance(n.value.args[0], ast.Tuple) and n.value.args[0].elts and isinstance(n.value.args[0].elts[-1], ast.Constant) and \
+                    type(n.value.args[0].elts[-1].value) is int and nstores.get(n.targets[0].id) == 1:
+                shapes[n.targets[0].id] = (len(n.value.args[0].elts), n.value.args[0].elts[-1].value)
+        if not shapes:
+            continue
+        for node in ast.walk(fn):
+            for fld in ("body", "orelse", "finalbody"):
+                blk = getattr(node, fld, None)
+                if not isinstance(blk, list) or not blk or not isinstance(blk[0], ast.stmt):
+                    continue
+                out = []
+                for st in blk:
+                    t = st.targets[0] if isinstance(st, ast.Assign) and len(st.targets) == 1 else None
+                    if isinstance(t, ast.Subscript) and isinstance(t.value, ast.Name) and t.value.id in shapes:
+                        ndim, K = shapes[t.value.id]
+                        idx = list(t.slice.elts) if isinstance(t.slice, ast.Tuple) else [t.slice]
+                        v = st.value
+                        number = isinstance(v, ast.Constant) and type(v.value) in (int, float) or \
+                            (isinstance(v, ast.UnaryOp) and isinstance(v.op, ast.USub) and isinstance(v.operand, ast.Constant) and type(v.operand.value) in (int, float))
+                        plain_idx = all(isinstance(i_, (ast.Name, ast.Constant)) and not isinstance(getattr(i_, "value", 0), (str, type(None), type(Ellipsis))) for i_ in idx)
+                        if len(idx) == ndim - 1 and plain_idx and not any(isinstance(i_, (ast.Slice, ast.Starred)) for i_ in idx) and \
+                                ((isinstance(v, ast.Tuple) and len(v.elts) == K and not any(isinstance(e, ast.Starred) for e in v.elts)) or number):
+                            for j in range(K):
+                                if len(idx) == 1:
+                                    tgt = ast.Subscript(value=ast.Subscript(value=ast.Name(id=t.value.id, ctx=ast.Load()), slice=_copy.deepcopy(idx[0]), ctx=ast.Load()),
+                                                        slice=ast.Constant(value=j), ctx=ast.Store())
+                                else:
+                                    tgt = ast.Subscript(value=ast.Name(id=t.value.id, ctx=ast.Load()),
+                                                        slice=ast.Tuple(elts=[_copy.deepcopy(i_) for i_ in idx] + [ast.Constant(value=j)], ctx=ast.Load()), ctx=ast.Store())
+                                out.append(ast.copy_location(ast.Assign(targets=[tgt], value=_copy.deepcopy(v) if number else v.elts[j]), st))
+                            continue
+                    out.append(st)
+                setattr(node, fld, out)
+    ast.fix_missing_locations(tree)
+
+
+def _prelower_conditional_calls(tree: ast.AST):
+    """before helpers are inlined: `T = A if C else B` / `return A if C else B` where a branch is a call of a private helper is put in the
+    statement form the normal form gives it anyway, so that the call stands alone on the right of a statement - where the inliner takes it."""
+    import copy as _copy
+
+    def private_call(e):
+        return isinstance(e, ast.Call) and ((isinstance(e.func, ast.Name) and e.func.id.startswith("_")) or
+                                            (isinstance(e.func, ast.Attribute) and e.func.attr.startswith("_") and not e.func.attr.startswith("__")))
+    for fn in [n for n in ast.walk(tree) if isinstance(n, (ast.FunctionDef, ast.AsyncFunctionDef))]:
+        for _round in range(4):
+            changed = False
+            for node in ast.walk(fn):
+                for fld in ("body", "orelse", "finalbody"):
+                    blk = getattr(node, fld, None)
+                    if not isinstance(blk, list) or not blk or not isinstance(blk[0], ast.stmt):
+                        continue
+                    out = []
+                    for st in blk:
+                        v = getattr(st, "value", None)
+                        if isinstance(v, ast.IfExp) and (private_call(v.body) or private_call(v.orelse)):
+                            if isinstance(st, ast.Assign) and len(st.targets) == 1:
+                                a1 = ast.copy_location(ast.Assign(targets=[_copy.deepcopy(st.targets[0])], value=v.body), st)
+                                a2 = ast.copy_location(ast.Assign(targets=[_copy.deepcopy(st.targets[0])], value=v.orelse), st)
+                                out.append(ast.copy_location(ast.If(test=v.test, body=[a1], orelse=[a2]), st))
+                                changed = True
+                                continue
+                            if isinstance(st, ast.Return):
+                                r1 = ast.copy_location(ast.Return(value=v.body), st)
+                                r2 = ast.copy_location(ast.Return(value=v.orelse), st)
+                                out.append(ast.copy_location(ast.If(test=v.test, body=[r1], orelse=[r2]), st))
+                                changed = True
+                                continue
+                        out.append(st)
+                    setattr(node, fld, out)
+            if not changed:
+                break
+    ast.fix_missing_locations(tree)
+
+
+def _lower_match(tree: ast.AST):
+    """`match E:` whose cases are all literal patterns (`case "a":`, `case 1 | 2:`, `case None:`), optionally a final `case _:`, without guards or
+    captures: the subject is evaluated once and compared with `==` (`is` for None / True / False), first match wins - the if / elif chain over
+    a local holding the subject (read directly when the subject is a plain name or a field read of one)."""
+    if not hasattr(ast, "Match"):
+        return
+    counter = [0]
+
+    def literal_tests(pat, subj):
+        pats = pat.patterns if isinstance(pat, ast.MatchOr) else [pat]
+        tests = []
+        for q in pats:
+            if isinstance(q, ast.MatchValue) and isinstance(q.value, ast.Constant):
+                tests.append(ast.Compare(left=subj(), ops=[ast.Eq()], comparators=[q.value]))
+            elif isinstance(q, ast.MatchSingleton):
+                tests.append(ast.Compare(left=subj(), ops=[ast.Is()], comparators=[ast.Constant(value=q.value)]))
+            else:
+                return None
+        return tests[0] if len(tests) == 1 else ast.BoolOp(op=ast.Or(), values=tests)
+    for fn in [n for n in ast.walk(tree) if isinstance(n, (ast.FunctionDef, ast.AsyncFunctionDef))]:
+        for node in ast.walk(fn):
+            for fld in ("body", "orelse", "finalbody"):
+                blk = getattr(node, fld, None)
+                if not isinstance(blk, list) or not blk or not isinstance(blk[0], ast.stmt):
+                    continue
+                out = []
+                for st in blk:
+                    if not isinstance(st, ast.Match) or any(c.guard is not None for c in st.cases):
+                        out.append(st)
+                        continue
+                    e = st.subject
+                    x = e
+                    while isinstance(x, ast.Attribute):
+                        x = x.value
+                    direct = isinstance(x, ast.Name)
+                    import copy as _copy
+                    if direct:
+                        subj = lambda e=e: _copy.deepcopy(e)
+                        pre = []
+                    else:
+                        counter[0] += 1
+                        nm = f"match__subject{counter[0]}"
+                        subj = lambda nm=nm: ast.Name(id=nm, ctx=ast.Load())
+                        pre = [ast.copy_location(ast.Assign(targets=[ast.Name(id=nm, ctx=ast.Store())], value=e), st)]
+                    chain, ok = [], True
+                    for i, c in enumerate(st.cases):
+                        if isinstance(c.pattern, ast.MatchAs) and c.pattern.pattern is None and c.pattern.name is None:
+                            if i != len(st.cases) - 1:
+                                ok = False
+                            chain.append((None, c.body))
+                            continue
+                        t = literal_tests(c.pattern, subj)
+                        if t is None:
+                            ok = False
+                            break
+                        chain.append((t, c.body))
+                    # a direct subject is re-read by every test: nothing in between may change it (the tests themselves have no effects)
+                    if not ok or not chain or chain[0][0] is None:
+                        out.append(st)
+                        continue
+                    top = None
+                    cur = None
+                    for t, body in chain:
+                        if t is None:
+                            cur.orelse = body
+                            break
+                        nxt = ast.copy_location(ast.If(test=t, body=body, orelse=[]), st)
+                        if top is None:
+                            top = nxt
+                        else:
+                            cur.orelse = [nxt]
+                        cur = nxt
+                    out.extend(pre + [top])
+                setattr(node, fld, out)
+    ast.fix_missing_locations(tree)
+
+
 def _coalesce_forwarded_temporaries(tree: ast.AST):
     """`t = E` immediately followed by `b = t`, with t a plain local bound only there and read only in later statements of the same block,
     during which b is not bound again: t and b hold the same value wherever t is read, so E is bound to b directly and t disappears
@@ -2224,6 +2471,8 @@ def normalise_tree(tree: ast.AST, computed: Set[str] = frozenset(), records: Opt
                     else:
                         new.append(st)
                 setattr(node, fld, new)
+    _lower_match(tree)
+    _lower_walrus(tree)
     _fold_constants(tree)
     _scalar_replace_records(tree, records or {})
     _hoist_package_imports(tree)
@@ -2251,6 +2500,7 @@ def normalise_tree(tree: ast.AST, computed: Set[str] = frozenset(), records: Opt
             _canonical_statements(tree)
             _eliminate_aliases(tree)
             _coalesce_forwarded_temporaries(tree)
+    _expand_row_stores(tree)
     for fn in [n for n in ast.walk(tree) if isinstance(n, (ast.FunctionDef, ast.AsyncFunctionDef))]:
         for node in ast.walk(fn):
             for fld in ("body", "orelse", "finalbody"):
@@ -2291,6 +2541,7 @@ class Model:
             mname = PKG if p.stem == "__init__" else f"{PKG}.{p.stem}"
             _canonical_receivers(tree)
             _propagate_module_constants(tree)
+            _prelower_conditional_calls(tree)
             self.modules[mname] = Module(mname, f"{PKG}/{p.name}", src, tree)
         from . import inline as _inline
         # names of properties anywhere in the package: reading one runs code, so such a read is never duplicated by a rewriting
